@@ -464,8 +464,12 @@ fn build_stream(r: &mut Rng, chain: &[usize], parms: &[Parms], form: &Form, cont
         Form::Dict => entries.push(("DecodeParms", Object::Dictionary(parms[0].dict(r)))),
         Form::Array => {
             let arr: Vec<Object> = chain.iter().enumerate().map(|(i, f)| {
-                if *f == 2 || (parms[i].predictor.is_none() && parms[i].early.is_none() && r.chance(1, 2)) { Object::Null } else { Object::Dictionary(parms[i].dict(r)) }
+                if (*f == 2 && r.chance(3, 4)) || (parms[i].predictor.is_none() && parms[i].early.is_none() && r.chance(1, 2)) { Object::Null } else { Object::Dictionary(parms[i].dict(r)) }
             }).collect();
+            let mut arr = arr;
+            // a shorter array (missing entries = no parameters) when the trailing stages need none; extra entries are ignored
+            while r.chance(1, 4) && !arr.is_empty() && parms[arr.len() - 1].is_default_equivalent() { arr.pop(); }
+            if arr.len() == chain.len() && r.chance(1, 6) { let extra = gen_parms(r, true); arr.push(if r.chance(1, 2) { Object::Null } else { Object::Dictionary(extra.dict(r)) }); }
             entries.push(("DecodeParms", Object::Array(arr)));
         }
     }
@@ -593,8 +597,8 @@ fn run_chains(c: &mut Ctx) {
     }
 }
 fn run_parms_array(c: &mut Ctx) {
-    // ---- array form with per-stage parameters that matter: F-C09-b territory (separate stream)
-    for i in 0..c.n(60, 100) {
+    // ---- array form with per-stage parameters that matter (the clause repaired with F-C09-b): main stream
+    for i in 0..c.n(1200, 15000) {
         let Some(mut r) = c.case("chain.parms_array", i) else { continue };
         let len = 1 + r.usize(3);
         let mut chain: Vec<usize> = (0..len).map(|_| r.usize(3)).collect();
@@ -615,9 +619,10 @@ fn run_parms_array(c: &mut Ctx) {
         c.count(if matters { "parms_array.nontrivial" } else { "parms_array.default_equivalent" });
         let res = decode_and_corr(c, &s);
         match &res {
-            Ok(Ok(v)) if *v == plain => { if matters { c.count("parms_array.nontrivial_but_decoded_right"); } }
+            Ok(Ok(v)) if *v == plain => { if matters { c.count("parms_array.nontrivial_decoded_right"); } }
             Ok(_) => {
                 let sig = if matters { "parms-array-ignored" } else { "chain-wrong" };
+                c.count("parms_array.failures");
                 c.oracle_fail(sig, "DecodeParms given as an array parallel to the filters: decoded content differs from the plaintext",
                     json!({"chain": chain_name(&chain), "parms": format!("{:?}", parms), "stream": stream_tok(&s), "plain": hex(&plain)}));
             }
@@ -874,7 +879,7 @@ fn run_witnesses(c: &mut Ctx) {
             }
         }
     }
-    // F-C09-b: DecodeParms as an array parallel to the filters is ignored
+    // regression: F-C09-b (repaired) — DecodeParms as an array parallel to the filters must be applied per stage
     if let Some(_) = c.case("witness.parms_array", 0) {
         let plain = vec![1u8, 2, 3, 4];
         let enc = ref_encode_frame(&plain, 1, 2, &[2]);
@@ -950,9 +955,7 @@ any malformed / edit case; distinct by request text.".into();
     run_a85(c);
     run_png(c);
     run_chains(c);
-    run_edit(c);
-    // streams inside known-finding territory come last and are small, so that they cannot crowd
-    // a new failure of the main streams out of the (capped) failure list
-    run_stale_parms(c);
     run_parms_array(c);
+    run_edit(c);
+    run_stale_parms(c);
 }
